@@ -43,10 +43,12 @@ M_ALPHA = [
     " " + EN12,                                           # 19 leading space
     EN12.replace(" ", "\t"),                              # 20 tab separated
     EN12.upper(),                                         # 21 upper case (no case folding in BIP39)
+    EN12 + " horse",                                      # 22 } the same characters split differently between sentence and
+    EN12 + " ho",                                         # 23 } passphrase (a cache keyed by the concatenation confuses them)
 ]
 P_ALPHA = ["", "TREZOR", _NFC("p\u00e4ssw\u00f6rd"), _NFD("p\u00e4ssw\u00f6rd"), "\uff50\uff41\uff53\uff53", "pass", "\ufb01", "fi", " lead", "trail ",
            "\u212b", "A\u030a", "\U0001f600", "\u30e1\u30fc\u30c8\u30eb\u30ac\u30d0\u30f4\u30a1\u3071\u3070\u3050\u309e\u3061\u3062\u5341\u4eba\u5341\u8272",
-           "\u3000", " "]
+           "\u3000", " ", " horse", "rse", "mnemonic"]
 TWINS_M = [(2, 3), (5, 6), (7, 8), (9, 10), (11, 12), (13, 14)]
 TWINS_P = [(2, 3), (4, 5), (6, 7), (10, 11), (14, 15)]
 
@@ -225,7 +227,7 @@ def chk_codepoints(lo, hi, hangul):
     return n, viols
 
 
-_GRID = [(m, p) for m in (0, 1, 2) for p in (0, 1, 2)]
+_GRID = [(m, p) for m in (0, 1, 2) for p in (0, 1, 2)] + [(22, 0), (0, 16), (23, 17), (0, 18), (22, 18)]
 
 
 def _ev_judge(i):
